@@ -21,6 +21,8 @@ Statement clauses and where they are:
 * single input unchanged, empty list writes nothing,
   missing input ⇒ FileNotFoundError, output untouched    → `C17_single`, `C17_empty`, `C17_missing`
 * the result can be assembled again                      → `C17_closed`, `C17_nested`
+* the output path may be one of the inputs (reads first)  → `C17_reads_before_write`, `C17_alias_output_is_input`,
+                                                           `C17_grow_in_place`
 * what the unrepaired helper did                         → `D24_*` (about `assembleLinesOld`)
 -/
 namespace Props.C17
@@ -212,6 +214,86 @@ theorem C17_nothing_written {α : Type} [DecidableEq α] (d : Fs α) (inputs : L
     · subst h; rfl
   simp only [assembleIn, hw]
 
+/-! ## (6) the output path may denote the file of one of the inputs
+
+`Dir`: names resolve to files (`key`), several names may denote one file (other spellings of a path, symbolic
+links, hard links).  All inputs are read before the output is opened. -/
+
+/-- the call does not change which file a name denotes -/
+theorem C17_dir_key {α κ : Type} [DecidableEq κ] (d : Dir α κ) (inputs : List α) (out : α) :
+    (assembleInDir d inputs out).2.key = d.key := by
+  simp only [assembleInDir]
+  cases (assembleRtf d.read inputs).written with
+  | none => rfl
+  | some ls => rfl
+
+/-- Reads come first: the outcome is that of the contents found under the listed names WHEN THE CALL STARTS,
+whatever file the output path denotes — a new one, an old unrelated one, or the file of one of the inputs; afterwards
+every name of the output's file reads the lines written, every other name reads what it read before; when nothing is
+written (empty list, missing input, IndexError) every name reads what it read before, the output's included. -/
+theorem C17_reads_before_write {α κ : Type} [DecidableEq κ] (d : Dir α κ) (inputs : List α) (out : α) :
+    (assembleInDir d inputs out).1 = assembleRtf d.read inputs ∧
+    ∀ q, (assembleInDir d inputs out).2.read q =
+      match (assembleRtf d.read inputs).written with
+      | some ls => if d.key q = d.key out then some ls else d.read q
+      | none => d.read q := by
+  refine ⟨rfl, fun q => ?_⟩
+  simp only [assembleInDir]
+  cases (assembleRtf d.read inputs).written with
+  | none => rfl
+  | some ls =>
+    simp only [Dir.write, Dir.read, Fs.write, Fs.read]
+    by_cases hk : d.key q = d.key out
+    · simp [hk]
+    · have hk' : ¬ d.key out = d.key q := fun e => hk e.symm
+      simp [hk, hk']
+
+/-- Aliasing is safe: if every listed name holds a file of the rtflite shape when the call starts, the call returns
+normally and the output's file holds the closed form of THOSE contents afterwards — no hypothesis relates `out` to the
+inputs, so `out` may be one of them (any position, listed under the same name or under another name of the same file). -/
+theorem C17_alias_output_is_input {α κ : Type} [DecidableEq κ] (d : Dir α κ) (inputs : List α) (out : α)
+    (s : Shaped) (rest : List Shaped)
+    (hfs : inputs.map d.read = (s :: rest).map (fun t => some t.file)) (h : AllOk (s :: rest)) :
+    (assembleInDir d inputs out).1 = ⟨.returned, some (expected (s :: rest))⟩ ∧
+    ∀ q, (assembleInDir d inputs out).2.read q =
+      if d.key q = d.key out then some (expected (s :: rest)) else d.read q := by
+  have hc := C17_call d.read inputs s rest hfs h
+  obtain ⟨h1, h2⟩ := C17_reads_before_write d inputs out
+  refine ⟨h1.trans hc, fun q => ?_⟩
+  rw [h2 q, hc]
+
+/-- Growing a deliverable in place: `assemble_rtf(ins1, out)` and then `assemble_rtf([c] ++ ins2, out)` where `c` is
+any name of the output's file (the same spelling, another one, a link) leaves in that file what assembling
+`ins1 ++ ins2` at once yields. -/
+theorem C17_grow_in_place {α κ : Type} [DecidableEq κ] (d : Dir α κ) (ins1 ins2 : List α) (out c : α)
+    (s : Shaped) (rest more : List Shaped) (h : AllOk (s :: (rest ++ more)))
+    (h1 : ins1.map d.read = (s :: rest).map (fun t => some t.file))
+    (h2 : ins2.map d.read = more.map (fun t => some t.file))
+    (hc : d.key c = d.key out) (hout : ∀ p ∈ ins2, d.key p ≠ d.key out) :
+    ∀ q, d.key q = d.key out →
+      (assembleInDir (assembleInDir d ins1 out).2 (c :: ins2) out).2.read q =
+        some (expected (s :: (rest ++ more))) := by
+  have hA1 : AllOk (s :: rest) := fun t ht => h t (by
+    rcases List.mem_cons.mp ht with rfl | ht
+    · simp
+    · simp [ht])
+  have hA2 : AllOk (assembled s rest :: more) := by
+    intro t ht
+    rcases List.mem_cons.mp ht with rfl | ht
+    · exact (ok_iff _).mpr (assembled_ok s rest (allOk_iff.mp hA1))
+    · exact h t (by simp [ht])
+  obtain ⟨_, hr1⟩ := C17_alias_output_is_input d ins1 out s rest h1 hA1
+  have hk := C17_dir_key d ins1 out
+  generalize (assembleInDir d ins1 out).2 = d1 at hr1 hk
+  have hmap : (c :: ins2).map d1.read = (assembled s rest :: more).map (fun t => some t.file) := by
+    simp only [List.map_cons]
+    rw [hr1 c, if_pos hc, assembled_file, ← h2]
+    congr 1
+    exact List.map_congr_left (fun p hp => by rw [hr1 p, if_neg (hout p hp)])
+  obtain ⟨_, hr2⟩ := C17_alias_output_is_input d1 (c :: ins2) out (assembled s rest) more hmap hA2
+  intro q hq
+  rw [hr2 q, hk, if_pos hq, expected_nested]
+
 /-! ## the decidable cut -/
 
 theorem C17_cut_sound (f : File) (s : Shaped) (h : decompose f = some s) : s.file = f ∧ s.ok = true :=
@@ -277,6 +359,18 @@ example : AllOk [exA, exB, exC] ∧ (∀ t ∈ [exA, exB, exC], wellFormedDoc t.
 `t141.rtf` in the directory, listing the former yields the former's lines -/
 example : (assembleIn [("t141.rtf", exB.file), ("t14[1].rtf", exA.file), ("out.rtf", [])]
     ["t14[1].rtf"] "out.rtf").2.read "out.rtf" = some exA.file := by decide
+
+/-- growing in place: `assemble([a, b], out)`, then `assemble(["./out", c], out)` — the second call lists the output's
+file under another spelling — holds what assembling a, b, c at once yields; listing the combined file LAST reads it
+before it is overwritten just the same -/
+def exDir : Dir String String :=
+  ⟨fun p => if p = "./out" then "out" else p, [("a", exA.file), ("b", exB.file), ("c", exC.file)]⟩
+
+example : (assembleInDir (assembleInDir exDir ["a", "b"] "out").2 ["./out", "c"] "out").2.read "out" =
+    some (expected [exA, exB, exC]) := by decide
+
+example : (assembleInDir (assembleInDir exDir ["b", "c"] "out").2 ["a", "./out"] "out").2.read "out" =
+    some (expected [exA, exB, exC]) := by decide
 
 /-! ## what the unrepaired helper did (kept as a record of D24; not part of the property) -/
 
